@@ -152,8 +152,14 @@ class Runner:
     def handle(self, case, origin="gen"):
         """Judge one case; never raises for property failures."""
         st = self.stats
+        t_case = time.time()
         try:
             res = self.prop.judge(case, self.ctx)
+            dt = time.time() - t_case
+            if dt > st.extra.get("slowest_case", [0.0])[0]:
+                st.extra["slowest_case"] = [round(dt, 1), json.dumps(case, sort_keys=True)[:400]]
+                if dt > 60 and os.environ.get("VF_SLOW_CASE_FILE"):
+                    json.dump({"property": self.prop.id, "case": case}, open(os.environ["VF_SLOW_CASE_FILE"], "w"))
         except (WorkerDied, WorkerOpError) as e:
             # a reference interpreter could not process a generated input: generator fault
             st.rejects["worker:" + str(e)[:80]] = st.rejects.get("worker:" + str(e)[:80], 0) + 1
